@@ -231,6 +231,8 @@ func runC06(c *Ctx) {
 	r.Doc("N2", "blocking release receives only under proceed==false of the round-start calculation or inside the wait-for-zero loop", 4)
 	r.Doc("N3", "round structure: wait -> spend -> re-divide remainder (measured before any reset) -> spend again when filled", 4)
 	r.Doc("N4", "(= D8) v2 constructor rejects a zero share for any registered priority", 1)
+	r.Doc("N5", "(= P1) with nothing in flight the first-phase allotment is the validated strategic distribution: the top-up visits every registered priority and assigns strategic-actual", 2)
+	r.Doc("N6", "the base-path candidates (uncrowded) are exactly the registered priorities with actual < strategic", 2)
 	for _, p := range []*Prog{c.V1, c.V2} {
 		pr, err := resolvePrio(p)
 		if err != nil {
@@ -244,6 +246,12 @@ func runC06(c *Ctx) {
 		checkN1(c, pr)
 		checkN2(c, pr)
 		checkN3(c, pr)
+		subp := &Ctx{V1: c.V1, V2: c.V2, Tier: c.Tier, R: NewReport("tmp", c.Tier)}
+		checkB5(subp, pr, true)
+		for _, o := range subp.R.Obls {
+			c.R.Check(o.OK, "N5", strings.TrimPrefix(o.Key, "P1@"), o.Site, o.Detail, o.Detail)
+		}
+		checkN6(c, pr)
 	}
 	sub := &Ctx{V1: c.V1, V2: c.V2, Tier: c.Tier, R: NewReport("tmp", c.Tier)}
 	checkD7D8(sub)
@@ -707,6 +715,64 @@ func runC17(c *Ctx) {
 					uncond := len(InstrDomEdges(mu)) == 0
 					r.Check(okReset && uncond, "R5", p.FnKey(fn)+"#replace", p.InstrPos(mu), "entry replaced unconditionally with Drained=false", "AddInput for an already registered priority does not replace the channel / reset the drained flag unconditionally")
 				}
+			}
+		}
+	}
+}
+
+// checkN6: the filter that rebuilds `uncrowded` keeps exactly the priorities with actual < strategic.
+func checkN6(c *Ctx, pr *prioRoles) {
+	p := pr.p
+	n := 0
+	for _, fn := range pr.rt.Funcs {
+		for _, b := range fn.Blocks {
+			for _, in := range b.Instrs {
+				st, ok := fieldStore(in, "uncrowded")
+				if !ok {
+					continue
+				}
+				call, isCall := st.Val.(*ssa.Call)
+				if !isCall {
+					continue
+				}
+				if bi, isB := call.Call.Value.(*ssa.Builtin); !isB || bi.Name() != "append" {
+					continue
+				}
+				n++
+				el, okv := varargsElem(call.Call.Args[1])
+				key := ""
+				if okv {
+					key = p.Sym(el).String()
+				}
+				var conds []string
+				okCond := false
+				extra := false
+				for _, e := range InstrDomEdges(in) {
+					if !blockInLoop(e.From) {
+						continue
+					}
+					iff := e.From.Instrs[len(e.From.Instrs)-1].(*ssa.If)
+					cm := p.NormCmp(iff.Cond, e.Succ == 0)
+					if cm != nil && strings.Contains(cm.String(), "len(") {
+						continue // the range loop's own test
+					}
+					conds = append(conds, p.condSymOnEdge(e))
+					isIdx := func(s *Sym, field string) bool {
+						s = deepStrip(s)
+						if s.Op != "index" || s.Args[1].String() != key {
+							return false
+						}
+						_, path, okp := s.Args[0].FieldPath()
+						return okp && path[len(path)-1] == field
+					}
+					if cm != nil && cm.Op == token.LSS && isIdx(cm.L, "actual") && isIdx(cm.R, "strategic") && cm.LC == 0 && cm.RC == 0 {
+						okCond = true
+					} else {
+						extra = true
+					}
+				}
+				c.R.Check(okCond && !extra, "N6", fmt.Sprintf("%s#uncrowded.%d", p.FnKey(fn), n), p.InstrPos(in), "kept iff actual < strategic",
+					"the candidates for the base allotment are filtered by "+strings.Join(conds, " && ")+" instead of exactly actual[p] < strategic[p]: the divider may then be given a subset for which some candidate's share is zero, and the round-start wait blocks with nothing in flight")
 			}
 		}
 	}
